@@ -422,7 +422,8 @@ def judge_diags(text, published, exp):
 
 def norm_panic(msg):
     head, _, loc = msg.partition(" @ ")
-    loc = loc.split(":")[0].replace("/repo/", "")
+    loc = loc.split(":")[0]
+    loc = loc[loc.find("src/"):] if "src/" in loc else loc
     head = re.sub(r"`[^`]*`", "`…`", head, flags=re.S)
     head = re.sub(r"'[^']*'", "'…'", head, flags=re.S)
     head = re.sub(r"\d+", "N", head)
@@ -590,13 +591,13 @@ def run(ctx):
     raw = {}             # (method, params class, position class, failure) -> {"docs": set, "n": count, "detail": first}
     panicking = set()
 
-    def flag(ev, msg, state_docs, hist_msgs, failure, extra=None):
+    def flag(ev, msg, state_docs, hist_msgs, failure, extra=None, doc=None):
         key = (ev.method, ev.pclass, ev.poscls, failure)
         detail = {"history": hist_msgs, "message": msg, "failure": failure}
         if extra:
             detail.update(extra)
         g = raw.setdefault(key, {"docs": set(), "n": 0, "detail": detail})
-        g["docs"].add(doc_class(ev, state_docs, None))
+        g["docs"].add(doc or doc_class(ev, state_docs, None))
         g["n"] += 1
         if failure.startswith("panic"):
             panicking.add((ev.method, ev.pclass, ev.poscls))
@@ -659,7 +660,8 @@ def run(ctx):
                     ctx.outcome("diagnostics: range equal only after the specification's clamping")
                 if what:
                     flag(ev, msg, state_docs, hist_msgs, f"diagnostics differ from `garden check`: {what}",
-                         {"published": n["params"]["diagnostics"], "expected": [list(x[:2]) + [list(x[2])] for x in exp], "text": text})
+                         {"published": n["params"]["diagnostics"], "expected": [list(x[:2]) + [list(x[2])] for x in exp], "text": text},
+                         doc="text:" + DOC_NAME.get(text, "?"))
         elif ev.method == "textDocument/didClose" and ev.pclass == "valid":
             if any(n["params"]["diagnostics"] for n in pubs):
                 ctx.outcome("didClose publishes non-empty diagnostics")
